@@ -54,7 +54,20 @@ type ModuleSpec struct {
 	Trait int     `json:"tr"`
 	Ins   []int   `json:"ins"`
 	Outs  []int   `json:"outs"`
+	// weights and recurrence flags of the module's links, inputs first, then outputs (absent: weight 1, not recurrent - what
+	// the YAML reader builds; a module assembled in code may carry others)
+	LinkW   []float64 `json:"link_w,omitempty"`
+	LinkRec []bool    `json:"link_rec,omitempty"`
 }
+
+func (m ModuleSpec) linkW(i int) float64 {
+	if i < len(m.LinkW) {
+		return m.LinkW[i]
+	}
+	return 1.0
+}
+
+func (m ModuleSpec) linkRec(i int) bool { return i < len(m.LinkRec) && m.LinkRec[i] }
 
 type GenomeSpec struct {
 	Id      int          `json:"id"`
@@ -114,11 +127,11 @@ func (s GenomeSpec) Build() *genetics.Genome {
 		if ms.Trait != 0 {
 			cn.Trait = traitById[ms.Trait]
 		}
-		for _, id := range ms.Ins {
-			cn.Incoming = append(cn.Incoming, network.NewLink(1.0, nodeById[id], cn, false))
+		for k, id := range ms.Ins {
+			cn.Incoming = append(cn.Incoming, network.NewLink(ms.linkW(k), nodeById[id], cn, ms.linkRec(k)))
 		}
-		for _, id := range ms.Outs {
-			cn.Outgoing = append(cn.Outgoing, network.NewLink(1.0, cn, nodeById[id], false))
+		for k, id := range ms.Outs {
+			cn.Outgoing = append(cn.Outgoing, network.NewLink(ms.linkW(len(ms.Ins)+k), cn, nodeById[id], ms.linkRec(len(ms.Ins)+k)))
 		}
 		mods[i] = genetics.NewMIMOGene(cn, ms.Innov, ms.Mut, ms.En)
 	}
@@ -161,6 +174,10 @@ func Snapshot(g *genetics.Genome) GenomeSpec {
 		}
 		for _, l := range cg.ControlNode.Outgoing {
 			ms.Outs = append(ms.Outs, l.OutNode.Id)
+		}
+		for _, l := range append(append([]*network.Link{}, cg.ControlNode.Incoming...), cg.ControlNode.Outgoing...) {
+			ms.LinkW = append(ms.LinkW, l.ConnectionWeight)
+			ms.LinkRec = append(ms.LinkRec, l.IsRecurrent)
 		}
 		s.Modules = append(s.Modules, ms)
 	}
@@ -226,6 +243,11 @@ func DiffSpec(a, b GenomeSpec) string {
 		if x.Id != y.Id || x.Act != y.Act || x.Innov != y.Innov || x.Mut != y.Mut || x.En != y.En || x.Trait != y.Trait ||
 			!intsEq(x.Ins, y.Ins) || !intsEq(x.Outs, y.Outs) {
 			return fmt.Sprintf("module[%d] %+v != %+v", i, x, y)
+		}
+		for k := 0; k < len(x.Ins)+len(x.Outs); k++ {
+			if x.linkW(k) != y.linkW(k) || x.linkRec(k) != y.linkRec(k) {
+				return fmt.Sprintf("module[%d]: link %d has weight %v recurrent %v on one side, weight %v recurrent %v on the other", i, k, x.linkW(k), x.linkRec(k), y.linkW(k), y.linkRec(k))
+			}
 		}
 	}
 	return ""
